@@ -148,6 +148,8 @@ def run(tier):
         "two lines": (symstr.mk([("atom", "l0", "line"), ("lit", "\n"), ("atom", "l1", "line")]), "<name>: <l0>\n <l1>\n"),
         "three lines": (symstr.mk([("atom", "l0", "line"), ("lit", "\n"), ("atom", "l1", "line"), ("lit", "\n"), ("atom", "l2", "line")]), "<name>: <l0>\n <l1>\n <l2>\n"),
         "empty value": (symstr.lit(""), "<name>: \n"),
+        "lines with trailing blanks": (symstr.mk([("atom", "l0", "line"), ("lit", "  \n"), ("atom", "l1", "line"), ("lit", " \t")]), "<name>: <l0>  \n <l1> \t\n"),
+        "single line with trailing blank": (symstr.mk([("atom", "l0", "line"), ("lit", " ")]), "<name>: <l0> \n"),
         "empty first line": (symstr.mk([("lit", "\n"), ("atom", "l1", "line")]), "<name>: \n <l1>\n"),
     }
     dk = "<%sField as core::fmt::Display>::fmt" % P
@@ -170,6 +172,20 @@ def run(tier):
         outs, I = roundtrip.render_value(F, mod, doc)
         got = [symstr.show(r) for ctl, r in outs if ctl == OK]
         C.ob("C08/print-document", "%d paragraphs" % np_, len(outs) == 1 and got == [want], "prints %r, expected %r (one empty line between paragraphs)" % (got, want))
+    # D3: the lossy reader reads the printed line forms back (same product as C06, lossy side)
+    import tokcursor, deb822_parse, lossy_parse as lp
+    wf = deb822_parse.wellformed_dfa()
+    lmod = lp.Mod(F, wf, True)
+    LI = tokcursor.LoopProgressInterp(F, lmod, max_depth=14)
+    try:
+        louts = LI.inline(F.fn(lp.ENTRY_KEY), [("abs", "text")], hirai.State(depth=0))
+    except hirai.Violation as e:
+        louts = []
+        C.ob("C08/analysis", "lossy reader product", False, str(e))
+    for (rule, inst), (r, i, detail, loc) in sorted(lmod.findings.items()):
+        C.ob("C08/read-back/" + rule, inst, False, detail, loc)
+    bad = [(ctl, str(v)[:60]) for ctl, v, s in louts if not (ctl == OK and v[0] == "enum" and v[1].endswith("Ok") and not s.mon.get("need_value") and not s.mon.get("need_field") and s.mon.get("fields_in_para", 0) == 0)]
+    C.ob("C08/read-back", "lossy reader on the printed line forms", not bad and bool(louts), "outcomes %s" % bad[:3], F.fn(lp.ENTRY_KEY)["sp"])
     C.assumptions += ["value lines are non-empty, contain no newline and do not start with whitespace or '#' (the property's domain); names are valid field names",
                       "that the printed line forms are accepted and read back line by line is C03 (lexer templates, lossless reader) and C06 (lossy reader) - this check establishes that the printer emits exactly those forms"]
     return C.finish("List operations are interpreted on all field vectors up to length 3 over two names (get/set/insert/remove/len/is_empty vs the list model); "
